@@ -94,15 +94,21 @@ def dict_allclose(left, right, rtol=1e-05, atol=1e-08, equal_nan=False):
         elif isinstance(left_value, np.ndarray) and issubclass(
             left_value.dtype.type, _INEXACT_TYPES
         ):
-            is_equal = np.shape(left_value) == np.shape(
-                right_value
-            ) and np.allclose(
-                left_value,
-                right_value,
-                rtol=rtol,
-                atol=atol,
-                equal_nan=equal_nan,
-            )
+            if np.shape(left_value) != np.shape(right_value):
+                is_equal = False
+            else:
+                try:
+                    is_equal = np.allclose(
+                        left_value,
+                        right_value,
+                        rtol=rtol,
+                        atol=atol,
+                        equal_nan=equal_nan,
+                    )
+                except TypeError:
+                    # the other value is not numeric (object dtype): no
+                    # tolerance applies, compare exactly
+                    is_equal = np.array_equal(left_value, right_value)
 
         else:
             is_equal = np.array_equal(left_value, right_value)
